@@ -1,4 +1,4 @@
-\* exhaustive (thorough tier), assembly automaton: as Ivf_MC with two MTUs, direct mode and both kinds of output
+\* exhaustive (thorough tier), assembly automaton: as Ivf_MC with two MTUs, and direct mode
 CONSTANTS
   Codecs <- AllCodecs
   Mtus <- MtusSmall
@@ -11,7 +11,7 @@ CONSTANTS
   Deltas = {3000}
   MaxRandDelta = 0
   Directs = {FALSE, TRUE}
-  Ctors = {"buf", "memseek"}
+  Ctors = {"memseek"}
   Dims <- DimsOne
   Lossy = TRUE
   NonKeyStart = TRUE
